@@ -119,7 +119,7 @@ def direct_specs(groups, cmd_mol, split):
     return out
 
 
-INVALID = ["num=5,scaled=10", "scaled=10,num=5", "k", "kx=1", "k=", "scaled=1.5", "scaled=1e3", "num=-3", "scaled=-2",
+INVALID = ["num=abc", "num=1.5", "num=5,scaled=10", "scaled=10,num=5", "k", "kx=1", "k=", "scaled=1.5", "scaled=1e3", "num=-3", "scaled=-2",
            "", "k=21,", ",k=21", "foo", "k=abc", "seed=", "seed=x", " k=21", "K=21", "num", "num=", "scaled", "scaled=",
            "k=4294967296", "num=4294967296", "seed=18446744073709551616", "scaled=18446744073709551616",
            "seed=-1", "k=-1", "k=1__0", "k=_10", "k=10_", "scaled=0", "num=0", "num=0,scaled=7", "scaled=0,num=7",
@@ -178,17 +178,100 @@ def gen_feed(rng):
             " D " + " ".join(D) + " S " + " ".join(hx(s) for s in seqs))
 
 
+def gen_native(rng):
+    """the Rust path: any combination of molecule flags, num and/or scaled, records of either kind"""
+    ks = ",".join(str(3 * rng.randint(1, 7)) for _ in range(rng.randint(1, 3)))
+    fl = [rng.randint(0, 1) for _ in range(4)]
+    if not any(fl):
+        fl[rng.randrange(4)] = 1
+    num, scaled = rng.choice([(0, rng.choice([1, 1, 2, 5, 93])), (rng.choice([1, 3, 50]), 0), (0, 0), (2, 1)])
+    inp = rng.choice(["d", "d", "p"])
+    recs = [prot_record(rng) if inp == "p" else dna_record(rng) for _ in range(rng.choice([1, 2, 4]))]
+    return (f"native {ks} {rng.choice([0, 42, 42, 2 ** 64 - 1])} {fl[0]} {fl[1]} {fl[2]} {fl[3]} {num} {rng.randint(0, 1)} "
+            f"{scaled} {inp} {1 if rng.random() < 0.8 else 0} S " + " ".join(hx(r) for r in recs))
+
+
+def gen_fromfile(rng):
+    """`sketch fromfile`: 1-3 -p groups that name their molecule type, a CSV of 1-4 rows (blank cells, rarely a
+    duplicate or blank name), genome / protein FASTA files, and an --already-done collection holding some of
+    the requested sketches (same name and parameters), some near misses (other k, abund, num) and strangers"""
+    ngroups = rng.choice([1, 1, 2, 3])
+    groups, strs = [], []
+    for _ in range(ngroups):
+        mol = rng.choice(["dna", "dna", "protein", "dayhoff", "hp"])
+        ks = [rng.choice([3, 4, 5, 7]) for _ in range(rng.choice([1, 1, 2]))]
+        size = rng.choice([("scaled", 1), ("scaled", 2), ("num", 3), ("num", 20), None])
+        ab = rng.choice([None, None, True])
+        items = [mol] + [f"k={k}" for k in ks]
+        if size:
+            items.append(f"{size[0]}={size[1]}")
+        if ab:
+            items.append("abund")
+        if rng.random() < 0.05:
+            items.append("seed=7")
+        if rng.random() < 0.05:
+            items = items[1:]                        # no molecule word: refused
+        rng.shuffle(items)
+        groups.append((mol, ks, size, bool(ab)))
+        strs.append(",".join(items))
+    names = [rng.choice(["g1", "g2", "sample three", "x|y"]) for _ in range(rng.choice([1, 2, 2, 3, 4]))]
+    if rng.random() < 0.85:
+        names = list(dict.fromkeys(names))
+    if rng.random() < 0.05:
+        names.append("")
+    ftoks, rows = [], []
+    for i, n in enumerate(names):
+        g = f"g{i}.fa" if rng.random() < 0.85 else ""
+        p = f"p{i}.faa" if rng.random() < 0.85 else ""
+        if rng.random() < 0.04 and g:
+            p = g                                    # the same file in both columns
+        rows.append(f"{hx(n)}:{hx(g)}:{hx(p)}")
+        if g:
+            ftoks += ["F", hx(g)] + [hx(f"r{j}") + ":" + hx(dna_record(rng, 6, 50).replace("-", "N"))
+                                     for j in range(rng.choice([1, 1, 2, 0] if rng.random() < 0.1 else [1, 2]))]
+        if p and p != g:
+            ftoks += ["F", hx(p)] + [hx(f"q{j}") + ":" + hx(prot_record(rng, 4, 30)) for j in range(rng.choice([1, 2]))]
+    done = []
+    for n in names:
+        if not n:
+            continue
+        for mol, ks, size, ab in groups:
+            for k in ks:
+                r = rng.random()
+                if r < 0.3:
+                    num, scaled = (size[1], 0) if size and size[0] == "num" else (0, size[1] if size else (1000 if mol == "dna" else 200))
+                    kk, a2 = k, ab
+                    if rng.random() < 0.3:
+                        kk, a2 = rng.choice([(k + 1, ab), (k, not ab), (k, ab)])
+                    done.append(f"{hx(n)}:{mol}:{kk}:{num}:{scaled}:{int(a2)}")
+    if rng.random() < 0.3:
+        done.append(f"{hx('stranger')}:dna:21:0:1000:0")
+    return (f"fromfile {int(rng.random() < 0.3)} P " + " ".join(hx(s) for s in strs) + " " + " ".join(ftoks) +
+            " R " + " ".join(rows) + " A " + " ".join(done)).replace("  ", " ")
+
+
 def gen_names(rng):
     """grouping / naming: 1-3 FASTA files (some empty, repeated record names, names with blanks), one of the
     four modes; file names are plain (they are created under a temp directory)"""
     mode = rng.choice(["file", "file", "first", "singleton", "merge"])
     if mode == "merge":
         mode = "merge:" + hx(rng.choice(["m", "my name", "x y  z", "s0"]))
+    r = rng.random()
+    if r < 0.2:
+        mode += "+dir"
+    elif r < 0.35:
+        mode += "+cwd"
+    elif r < 0.38:
+        mode += "+newdir"            # --output-dir naming a directory that does not exist (known finding C14.2)
+    if rng.random() < 0.15:
+        mode += "+rand"
+    if rng.random() < 0.2:
+        mode += "+check"
     k = rng.choice([3, 5, 7])
     toks = []
     used = set()
     for f in range(rng.choice([1, 2, 2, 3])):
-        fname = rng.choice(["a.fa", "b.fasta", "in put.fa", "c", "d.fa"])
+        fname = rng.choice(["a.fa", "b.fasta", "in put.fa", "c", "d.fa", "sub/e.fa", "sub/deep/f.fa"])
         if fname in used:
             continue
         used.add(fname)
@@ -208,7 +291,9 @@ def gen_case(rng, flavour):
     for _ in range(n):
         r = rng.random()
         if flavour == "names":
-            if r < 0.85:
+            if r < 0.35:
+                lines.append(gen_fromfile(rng))
+            elif r < 0.85:
                 lines.append(gen_names(rng))
             else:
                 lines.append("setname " + hx(rng.choice(["-", "a.fa", "--", "- ", "x-"])) + " " +
@@ -220,6 +305,9 @@ def gen_case(rng, flavour):
                 lines.append(l)
             continue
         cmd_mol = rng.choice(MOLS + ["dna", "-"])
+        if flavour == "grammar" and rng.random() < 0.2:
+            lines.append(gen_native(rng))
+            continue
         if r < 0.25:
             s = rng.choice(INVALID) if rng.random() < 0.6 else gen_group(rng, "dna" if cmd_mol == "-" else cmd_mol)[1]
             lines.append("parse " + hx(s))
@@ -363,7 +451,8 @@ def oracle(case, impl):
                             f"`{[s for s in strs]}` ({cmd_mol}, split={split}) built {got} but the specification asks for {exp}"))
         elif w[0] == "names" and obs.startswith("ok"):
             # the property's own reading of "per-record or merged, named from file or first record"
-            mode = w[1]
+            mode = w[1].split("+")[0]
+            oflags = w[1].split("+")[1:]
             files, cur = [], None
             for t in w[3:]:
                 if t == "F":
@@ -373,7 +462,9 @@ def oracle(case, impl):
                     files.append(cur)
                 else:
                     cur[1].append(unhx(t.split(":")[0]))
-            got = [tuple(unhx(x) for x in g.split("|")[:2]) for g in obs[3:].split(";")] if obs[3:] else []
+            got = [tuple(unhx(x) for x in g.split("|")[1:3]) for g in obs[3:].split(";")] if obs[3:] else []
+            if any(f in oflags for f in ("dir", "cwd")):
+                continue          # sorted by output path: the order check below is for the single-output mode
             if mode == "singleton":
                 exp = [(n, f) for f, recs in files for n in recs]
             elif mode == "first":
@@ -387,10 +478,84 @@ def oracle(case, impl):
             if not ok:
                 bad.append((idx, "C14:sketch:wrong-names", f"`sketch` in mode {mode.split(':')[0]} on files {files} wrote signatures (name, filename) = {got}; "
                                                             f"the documentation promises {exp}"))
+        elif w[0] == "fromfile" and (obs.startswith("ok") or obs.startswith("exit")):
+            # built + already done + impossible = names x parameter sets; nothing twice, nothing lost
+            toks = w[3:]
+            def upto(ts, marks):
+                i = 0
+                while i < len(ts) and ts[i] not in marks:
+                    i += 1
+                return ts[:i], ts[i:]
+            ps, rest = upto(toks, ("F", "R", "A"))
+            ftoks, rest = upto(rest, ("R",))
+            rtoks, rest = upto(rest[1:], ("A",))
+            atoks = rest[1:]
+            rd = [plain_reading(unhx(t), None) for t in ps]
+            if not ps or any(r is None for r in rd):
+                continue
+            build = []
+            for g in rd:
+                num = g["num"] if g["num"] is not None else 0
+                scaled = g["scaled"] if g["scaled"] is not None else (0 if g["num"] is not None else DOC_DEFAULT_SCALED[g["mol"]])
+                for k in (g["ks"] or [DOC_DEFAULT_K[g["mol"]]]):
+                    build.append((g["mol"], k, num, scaled, bool(g["track"]), 42 if g["seed"] is None else g["seed"]))
+            nrec, cur = {}, None
+            for t in ftoks:
+                if t == "F":
+                    cur = None
+                elif cur is None:
+                    cur = unhx(t)
+                    nrec[cur] = 0
+                else:
+                    nrec[cur] += 1
+            rows = [tuple(unhx(x) for x in t.split(":")) for t in rtoks]
+            done = set()
+            for t in atoks:
+                n, mol, k, num, scaled, ab = t.split(":")
+                done.add((unhx(n), mol, int(k), int(num), int(scaled), bool(int(ab))))
+            names = [r[0] for r in rows]
+            exp = None
+            if any(b[5] != 42 for b in build) or "" in names or len(set(names)) != len(names):
+                exp = "exit -1"
+            else:
+                built, missing = [], 0
+                for n, gf, pf in rows:
+                    for mol, k, num, scaled, tr, _ in build:
+                        if (n, mol, k, num, scaled, tr) in done:
+                            continue
+                        f = gf if mol == "dna" else pf
+                        if not f:
+                            missing += 1
+                        else:
+                            built.append((n, f, k * (1 if mol == "dna" else 3), HFN[mol]))
+                if missing and w[1] == "0":
+                    exp = "exit -1"
+                elif not built:
+                    exp = "exit 0"
+                elif any(gf and gf == pf for _, gf, pf in rows):
+                    continue
+                elif any(nrec.get(f, 0) == 0 for _, f, _, _ in built):
+                    exp = "exit -1"
+                else:
+                    got = []
+                    for g in ([x for x in obs[3:].split(";") if x] if obs.startswith("ok") else []):
+                        n, f, prm = g.split("|")[:3]
+                        got.append((unhx(n), unhx(f), int(prm.split(":")[0]), int(prm.split(":")[1])))
+                    if sorted(got) != sorted(built):
+                        bad.append((idx, "C14:sketch:fromfile-wrong-set", f"`sketch fromfile` wrote {sorted(got)} but names x parameter sets minus "
+                                         f"already-done minus impossible is {sorted(built)}"))
+                    continue
+            if obs != exp:
+                bad.append((idx, "C14:sketch:fromfile-wrong-exit", f"`sketch fromfile` ended with `{obs[:60]}`, the specification says `{exp}` for `{op[:100]}`"))
+        elif w[0] == "names" and obs == "err FileNotFoundError" and "newdir" in w[1].split("+"):
+            bad.append((idx, "C14:sketch:output-dir-not-created", "`sketch --output-dir DIR` with a DIR that does not exist sketches the first "
+                             "input and then dies with FileNotFoundError when it writes the first signature file (the directory is never created)"))
         elif w[0] == "feed" and obs.startswith("feed F "):
             body = obs[len("feed F "):]
             fpart, _, dpart = body.partition(" D ")
             D = dpart.split() if dpart else []
+            if fpart.startswith("err ") and any(d.startswith("Dexc:") for d in D):
+                continue          # refused by the command and by MinHash() alike (patches/C14.1 applied)
             if fpart.startswith("err "):
                 bad.append((idx, "C14:sketch:valid-spec-refused", f"a specification in the documented grammar was refused: {fpart} for `{op[:120]}`"))
                 continue
